@@ -33,7 +33,7 @@ use std::time::Duration;
 pub const SIG_SERVER: &str = "server-role-never-authenticates-client";
 pub const SIG_PLAIN: &str = "plaintext-app-data-accepted-unauthenticated";
 
-const VICTIM_CERT: usize = 5;
+pub(crate) const VICTIM_CERT: usize = 5;
 /// how many transmissions of a class an "every transmission" operator covers
 const ALL_ORD: u16 = 64;
 const PLAIN_MARK: &[u8] = b"C02-PLAINTEXT-INJECTED";
@@ -149,10 +149,10 @@ pub struct Case {
     pub ops: Vec<Op>,
 }
 
-fn genuine(g: u8) -> Certificate {
+pub(crate) fn genuine(g: u8) -> Certificate {
     rig::cert(g as usize % 5)
 }
-fn attacker(g: u8) -> Certificate {
+pub(crate) fn attacker(g: u8) -> Certificate {
     rig::cert((g as usize + 1) % 5)
 }
 fn third(g: u8) -> Certificate {
@@ -481,9 +481,9 @@ fn rules_for(c: &Case) -> (Vec<Rule<DClass>>, Vec<usize>) {
 
 // ------------------------------------------------------------------ session
 
-struct Tap {
-    log: Mutex<Vec<Bytes>>,
-    inner: Arc<DtlsTransport>,
+pub(crate) struct Tap {
+    pub(crate) log: Mutex<Vec<Bytes>>,
+    pub(crate) inner: Arc<DtlsTransport>,
 }
 
 #[async_trait::async_trait]
@@ -659,13 +659,13 @@ async fn record_stale(g: u8, tm: Timing) -> Option<Stale> {
 
 // ------------------------------------------------------------------ oracle
 
-struct Analysis {
-    to_victim: Vec<hs::HsMsg>,
-    from_victim: Vec<hs::HsMsg>,
-    to_victim_prot: Vec<DtlsRec>,
-    from_victim_prot: Vec<DtlsRec>,
+pub(crate) struct Analysis {
+    pub(crate) to_victim: Vec<hs::HsMsg>,
+    pub(crate) from_victim: Vec<hs::HsMsg>,
+    pub(crate) to_victim_prot: Vec<DtlsRec>,
+    pub(crate) from_victim_prot: Vec<DtlsRec>,
     /// payloads of epoch-0 application-data records handed to the victim
-    plain_app_to_victim: Vec<Vec<u8>>,
+    pub(crate) plain_app_to_victim: Vec<Vec<u8>>,
 }
 
 fn analyse(o: &Observed) -> Analysis {
@@ -685,6 +685,11 @@ fn analyse(o: &Observed) -> Analysis {
     }
     let mut from_v: Vec<&Bytes> = o.p_in.iter().filter(|d| !edited.contains(d)).collect();
     from_v.extend(originals);
+    analyse_datagrams(&o.v_in, &from_v)
+}
+
+/// `v_in`: datagrams handed to the victim's DTLS layer; `from_v`: datagrams the victim sent.
+pub(crate) fn analyse_datagrams(v_in: &[Bytes], from_v: &[&Bytes]) -> Analysis {
     let mut a = Analysis {
         to_victim: Vec::new(),
         from_victim: Vec::new(),
@@ -692,7 +697,7 @@ fn analyse(o: &Observed) -> Analysis {
         from_victim_prot: Vec::new(),
         plain_app_to_victim: Vec::new(),
     };
-    for d in &o.v_in {
+    for d in v_in {
         a.to_victim.extend(hs::plaintext_hs(d));
         a.to_victim_prot.extend(hs::protected_hs_records(d));
         for r in wire::dtls_records(d) {
@@ -702,23 +707,24 @@ fn analyse(o: &Observed) -> Analysis {
         }
     }
     for d in from_v {
+        let d: &Bytes = d;
         a.from_victim.extend(hs::plaintext_hs(d));
         a.from_victim_prot.extend(hs::protected_hs_records(d));
     }
     a
 }
 
-struct ClientAuth {
-    any_certificate: bool,
-    cert_match: bool,
-    key_proof: bool,
+pub(crate) struct ClientAuth {
+    pub(crate) any_certificate: bool,
+    pub(crate) cert_match: bool,
+    pub(crate) key_proof: bool,
     /// what the search for a proof looked at
-    detail: String,
+    pub(crate) detail: String,
 }
 
 /// Did this handshake show the (client) victim a leaf hashing to F and a ServerKeyExchange signed
 /// by that leaf's key over this session's randoms and parameters?
-fn client_auth(f: &str, a: &Analysis) -> ClientAuth {
+pub(crate) fn client_auth(f: &str, a: &Analysis) -> ClientAuth {
     let mut r = ClientAuth { any_certificate: false, cert_match: false, key_proof: false, detail: String::new() };
     let mut leaves: Vec<Vec<u8>> = Vec::new();
     for m in a.to_victim.iter().filter(|m| m.msg_type == hs::HT_CERTIFICATE) {
@@ -808,15 +814,15 @@ fn finished_msgs(recs: &[DtlsRec], key: &[u8], iv: &[u8]) -> Vec<hs::HsMsg> {
     out
 }
 
-struct FinishedCheck {
-    confirmed: bool,
-    delivered: usize,
-    transcripts: usize,
+pub(crate) struct FinishedCheck {
+    pub(crate) confirmed: bool,
+    pub(crate) delivered: usize,
+    pub(crate) transcripts: usize,
 }
 
 /// Was a Finished delivered to the victim whose verify_data is the right one for some transcript
 /// the victim can have assembled from what it sent and what was delivered to it?
-fn finished_check(victim_server: bool, a: &Analysis, keys: &SessionKeys) -> FinishedCheck {
+pub(crate) fn finished_check(victim_server: bool, a: &Analysis, keys: &SessionKeys) -> FinishedCheck {
     let (ck, civ, sk, siv) = (&keys.client_write_key, &keys.client_write_iv, &keys.server_write_key, &keys.server_write_iv);
     let (slots, label, delivered): (Vec<Vec<Vec<u8>>>, &[u8], Vec<hs::HsMsg>) = if !victim_server {
         let own_fin: Vec<Vec<u8>> = finished_msgs(&a.from_victim_prot, ck, civ).into_iter().map(|m| m.raw).collect();
@@ -1255,9 +1261,12 @@ fn bitflip_cases(all: bool, seed: u64) -> Vec<Case> {
 // ------------------------------------------------------------------ driver
 
 /// Run an enumerated list of cases concurrently; timing failures must repeat alone (DESIGN 2.6).
-fn run_fixed(ctx: &Ctx, rt: &tokio::runtime::Runtime, sub: &str, cases: Vec<Case>, conc: usize, chk: AsyncCheck<Case>) {
-    let solo = |c: &Case| -> (CaseRec, Check) { rt.block_on(chk(c.clone())) };
-    let settle = |c: &Case, rec: &CaseRec, res: Check| -> Check {
+pub(crate) fn run_fixed<T>(ctx: &Ctx, rt: &tokio::runtime::Runtime, sub: &str, cases: Vec<T>, conc: usize, chk: AsyncCheck<T>)
+where
+    T: Clone + Serialize + serde::de::DeserializeOwned + Send + 'static,
+{
+    let solo = |c: &T| -> (CaseRec, Check) { rt.block_on(chk(c.clone())) };
+    let settle = |c: &T, rec: &CaseRec, res: Check| -> Check {
         match res {
             Err(f) if f.timing => {
                 let mut last = Err(f);
@@ -1278,7 +1287,7 @@ fn run_fixed(ctx: &Ctx, rt: &tokio::runtime::Runtime, sub: &str, cases: Vec<Case
         }
     };
     if ctx.is_replay() {
-        if let Some(c) = ctx.replay_case::<Case>(sub) {
+        if let Some(c) = ctx.replay_case::<T>(sub) {
             let (rec, res) = solo(&c);
             let res = settle(&c, &rec, res);
             let v = serde_json::to_value(&c).unwrap();
@@ -1289,9 +1298,9 @@ fn run_fixed(ctx: &Ctx, rt: &tokio::runtime::Runtime, sub: &str, cases: Vec<Case
         }
         return;
     }
-    let mut all = ctx.regression_cases::<Case>(sub);
+    let mut all = ctx.regression_cases::<T>(sub);
     all.extend(cases);
-    let results: Vec<(Case, (CaseRec, Check))> = rt.block_on(async {
+    let results: Vec<(T, (CaseRec, Check))> = rt.block_on(async {
         let sem = Arc::new(tokio::sync::Semaphore::new(conc.max(1)));
         let mut hs_ = Vec::new();
         for c in all {
@@ -1327,12 +1336,13 @@ fn run_fixed(ctx: &Ctx, rt: &tokio::runtime::Runtime, sub: &str, cases: Vec<Case
 
 pub fn run(ctx: &mut Ctx) {
     ctx.level = "fault_enumeration";
-    ctx.rule = "two real rustrtc DTLS endpoints over the harness network; the victim (either DTLS role) expects fingerprint F in {genuine identity's, attacker's, an unrelated certificate's, the presented leaf's, none}; the peer is a self-consistent endpoint with an assembled certificate: (i) genuine chain+key, (ii) attacker chain+key, (iii) genuine chain + attacker key, (iv) empty chain, (v) genuine leaf with a flipped bit / truncation / overwritten byte, (vi) two-certificate chain mixing genuine and attacker certificate with the attacker's key; on top 0-3 on-path operators addressed by sender, message class and transmission ordinal: drop, duplicate, hold back (reorder), omit every transmission, omit + close the message_seq gap, bit flip / truncate / set byte anywhere, bit flip inside the handshake body, splice Certificate / ServerKeyExchange / whole server flight recorded in another session of the genuine identity (record sequence moved forward), extended-master-secret downgrade of the ClientHello, Finished re-sealed with one verify_data bit flipped by a key-knowing relay, extra epoch-0 application-data record. Sub-checks: full peer x F matrix, random cases, single-bit flips of the Certificate and ServerKeyExchange datagrams (quick: all header bits + 1/11 of the rest; thorough: every bit), fixed key-confirmation cases, server-role probe. Non-trivial = the peer is an impostor or F does not name it, or at least one operator fired; distinct by case digest.".into();
+    ctx.rule = "two real rustrtc DTLS endpoints over the harness network; the victim (either DTLS role) expects fingerprint F in {genuine identity's, attacker's, an unrelated certificate's, the presented leaf's, none}; the peer is a self-consistent endpoint with an assembled certificate: (i) genuine chain+key, (ii) attacker chain+key, (iii) genuine chain + attacker key, (iv) empty chain, (v) genuine leaf with a flipped bit / truncation / overwritten byte, (vi) two-certificate chain mixing genuine and attacker certificate with the attacker's key; on top 0-3 on-path operators addressed by sender, message class and transmission ordinal: drop, duplicate, hold back (reorder), omit every transmission, omit + close the message_seq gap, bit flip / truncate / set byte anywhere, bit flip inside the handshake body, splice Certificate / ServerKeyExchange / whole server flight recorded in another session of the genuine identity (record sequence moved forward), extended-master-secret downgrade of the ClientHello, Finished re-sealed with one verify_data bit flipped by a key-knowing relay, extra epoch-0 application-data record. Takeover sub-checks: a harness-implemented active on-path party obtains the genuine server's signed flight for the victim's ClientHello, presents the victim client with a flight mixing genuine messages with a ServerKeyExchange carrying its own P-256 share (garbage / empty / copied-genuine / attacker-key signature), the attacker's Certificate, a second ServerHello with another random, duplicates or omissions, message_seq continued or colliding, and then completes the handshake itself (ring ECDH, own PRF/Finished, AES-GCM records) on every key schedule derivable from its share, else relays to the genuine server; fixed grid of named shapes + proptest insertions. Sub-checks: full peer x F matrix, random cases, single-bit flips of the Certificate and ServerKeyExchange datagrams (quick: all header bits + 1/11 of the rest; thorough: every bit), fixed key-confirmation cases, server-role probe. Non-trivial = the peer is an impostor or F does not name it, or at least one operator fired; distinct by case digest.".into();
     ctx.assumptions = vec![
         "oracle inputs are the datagrams recorded at the entrance of each endpoint's DTLS layer plus the victim's published state/keys; the victim's own decisions are never trusted".into(),
         "'proved possession of the corresponding private key' for a client victim = a ServerKeyExchange delivered in this handshake whose ECDSA signature verifies (ring) under the P-256 key found in the leaf that hashes to F, over a ClientHello random the victim sent, a ServerHello random delivered to it and the ECDH parameters; plus key confirmation: a delivered Finished whose verify_data matches a transcript the victim can have seen (RFC 5246 7.4.9)".into(),
         "for a server victim the only way to meet the statement is a client Certificate + CertificateVerify; rustrtc implements neither (known finding), so with that finding recorded only key confirmation and key agreement are asserted for server victims".into(),
         "with no expected fingerprint nothing is asserted".into(),
+        "takeover: the share behind the victim's keys is identified by key equality - the victim's published master secret equals one the on-path party derived from its own ECDH private key (or the party's AES-GCM application record is delivered); Connected / EKM / data on such keys is a violation unless a ServerKeyExchange carrying that share and signed by the pinned leaf's key over this session's randoms was delivered".into(),
         "'ends in Failed' is observed until the victim's handshake deadline (hook H2: 50 ms retransmit, 2.5 s deadline) plus 2 s; still-Handshaking counts only if it repeats in 3 solo re-runs (DESIGN 2.6)".into(),
         "plaintext (epoch-0) application data reaching the application while the peer is unauthenticated is reported under its own signature; the same defect with an authenticated peer is property C03's".into(),
     ];
@@ -1377,6 +1387,9 @@ pub fn run(ctx: &mut Ctx) {
     // 6. random cases
     let n = ctx.scale(1000usize, 12_000usize);
     ctx.sub_async(&rt, "random", n, conc, case_strategy(), checker(sh.clone(), false));
+
+    // 7. active on-path party that finishes the handshake itself (c02_takeover.rs)
+    super::c02_takeover::run_subs(ctx, &rt, tm, conc);
 
     let skipped = sh.server_auth_skipped.load(Ordering::Relaxed);
     if skipped > 0 {
